@@ -30,6 +30,17 @@ def config(quick):
                 fail_sets=fail_sets(quick), log_sevs=[4, 2, 3, 8] if quick else [4, 2, 3, 8, 11, 5, 7, 0])
 
 
+def config_files(quick):
+    """Destinations that fail for real: files closed through the writer list they are in (Close of what
+    GetWriterBy hands out).  Writer 45/46 are the library's own file destinations (NewFileWriter), 41 a
+    plain *os.File, 2 a recording LogWriter; a closed file fails every later attempt."""
+    sa = {"Writer": [(45, 0)], "AddWriter": [(2, 0), (41, 0)] if quick else [(2, 0), (41, 0), (46, 0)],
+          "ErrorWriter": [(46, 0)] if quick else [(46, 0), (2, 0)], "AddErrorWriter": [(2, 0)], "Level": [(4, 0)]}
+    return dict(max_loggers=1, init_level=5, names=[], bool_lists=[[]], layouts=[""], opt_lists=[[]],
+                setter_args=sa, acts=["Set", "LogF", "CloseW"], probe_sevs=PROBES, wlevels=[], max_list=2,
+                fail_sets=[[], [[1, 2, 1]], [[2, 2, 1]]], log_sevs=[4, 2, 3])
+
+
 def rand_config(c):
     r = dict(c)
     r["acts"] = ["Set", "LogF", "LogF", "With"]
@@ -42,6 +53,9 @@ def rand_config(c):
 
 
 def explain(ev, b):
+    if ev["op"] == "CloseW" or "hang" in str(ev.get("outcome", "")):
+        return [("%s:%s" % (ev["op"], "hang" if "hang" in str(ev.get("outcome", "")) else "close"),
+                 "%s(l=%s, a=%s): observed %s ; model expected %s" % (ev["op"], ev["l"], ev["a"], {k: v for k, v in ev.items() if k != "obs"}, b["expected"][:400]))]
     if ev["op"] != "LogF":
         return None
     return [("LogF:sev%d" % ev["a"], "record of severity %d under fault assignment #%d: attempts observed %s outcome %s ; model expected %s" % (
@@ -56,6 +70,8 @@ def run(ctx, replay):
     corelib.run_core(ctx, c, invariants=["BoundedReaction", "RouteOK"], properties=[], obs=OBS,
                      rand_count=60 if ctx.quick() else 800, rand_depth=30 if ctx.quick() else 50,
                      rand_loggers=3, rand_cfg=rc, key_fn=explain)
+    corelib.run_core(ctx, config_files(ctx.quick()), invariants=["BoundedReaction", "RouteOK"], properties=[], obs=OBS,
+                     rand_count=0, rand_depth=0, rand_loggers=1, key_fn=explain, tag="files")
     ctx.extra["fail_assignments"] = len(c["fail_sets"])
     ctx.assumptions += ["faults are injected by the recording writers (Write returns an error and writes nothing)",
                         "real stdout/stderr never fail",
